@@ -14,6 +14,9 @@ type SiteTable struct {
 	// MayBlock: the module under test uses synchronisation primitives, channels
 	// or goroutines; the scheduler then runs its blocked-task monitor.
 	MayBlock bool `json:"may_block"`
+	// HotFuncs: functions that touch package-level state, synchronisation
+	// primitives or start goroutines (syntactic scan).
+	HotFuncs []string `json:"hot_funcs"`
 	Sites    []struct {
 		ID   uint32 `json:"id"`
 		File string `json:"file"`
